@@ -178,6 +178,31 @@ class Reference:
         self.new_entries.append((key, out))
         return out
 
+    def begin(self, ddl, flags=None, run=None):
+        """Start an evaluation without waiting for it (two references can then work at the same time).  Returns a token for
+        finish()."""
+        req = {"ddl": ddl, "flags": flags or {}, "run": run or {}}
+        key = core.cjson(req)
+        self.calls += 1
+        if key in self.memo:
+            self.hits += 1
+            return ("hit", key)
+        if self.cwd:
+            req["cwd"] = self.cwd
+        _write_msg(self.wfd, req)
+        return ("sent", key)
+
+    def finish(self, token):
+        kind, key = token
+        if kind == "hit":
+            return self.memo[key]
+        out = _read_msg(self.rfd)
+        if out and out[0] in ("crash", "harness-exc"):
+            raise RuntimeError("reference evaluation failed: %r" % (out,))
+        self.memo[key] = out
+        self.new_entries.append((key, out))
+        return out
+
     def from_file(self, path, flags, run):
         """parse_from_file(path, parser_settings=flags, **run) in a pristine process of this reference's environment.
         Not memoised (the same path holds other content in other runs)."""
